@@ -206,6 +206,11 @@ Upd(e) ==
          /\ bk' = [k \in DOMAIN bk |-> IF bk[k] = NoEnt THEN NoEnt ELSE [bk[k] EXCEPT !.e = now]]
          /\ cnt' = [cnt EXCEPT !.touched = @ + Cardinality({k \in DOMAIN bk : bk[k] # NoEnt})]
          /\ UNCHANGED <<cfg, now, inb, produced, stored, berrs, injected, failUntil, pend, skipP, cellOf, lastRd, built>>
+    [] e.ev = "extwrite" ->
+         /\ stored' = Put(stored, e.k, At(stored, e.k, {}) \cup {e.v})
+         /\ bk' = Put(bk, e.k, [v |-> e.v, e |-> ExpiryFor(0), src |-> "ext"])
+         /\ cnt' = [cnt EXCEPT !.writes = @ + 1]
+         /\ UNCHANGED <<cfg, now, inb, produced, berrs, injected, failUntil, pend, skipP, cellOf, lastRd, built>>
     [] e.ev = "extdelete" ->
          /\ bk' = Put(bk, e.k, NoEnt)
          /\ UNCHANGED <<cfg, now, inb, produced, stored, berrs, injected, failUntil, pend, skipP, cellOf, lastRd, built, cnt>>
